@@ -167,6 +167,89 @@ def solve_fallback(ctx, fn="partial", kind="general", ref="NI", zero_at=0):
                   ctx.all([ctx.eq(r[i, j], 0.0, atol=0.0) for i in range(size) for j in range(cols)]))
 
 
+def _rhs(fn, els, ref, size, i0):
+    n = len(els)
+    cols = n if fn == "partial" else n - 1
+    b = [[0.0] * cols for _ in range(size)]
+    if fn == "partial":
+        for A in range(n):
+            b[i0 + A][A] = -1.0
+    else:
+        c = 0
+        for A in range(n):
+            if els[A] != ref:
+                b[i0 + A][c] = -1.0; c += 1
+            else:
+                b[i0 + A] = [1.0] * cols
+    return b, cols
+
+
+def solve_reuse(ctx, seq=("partial", "partial"), kinds=("diag", "diag"), ref="NI", zero_at=1):
+    """the same composition-set OBJECT is evaluated twice while its content changed in between (pycalphad's solver updates
+    the cached composition set in place when the next state point is computed with removeCache=False; the temperature
+    changed too): the second partialddx / totalddx / dMudX result belongs to the SECOND state -- it solves the bordered
+    system of the second Hessian (all zeros if that one is singular) and equals an evaluation on a fresh object"""
+    els = ["AL", "NI"]; n = 2
+    general = "general" in kinds
+    dof, ncons = (0, 0) if general else (2, 1)
+    size = dof + ncons + n + 1
+    i0 = dof + ncons + 1
+
+    def mk(kind, tag):
+        if kind == "general":                      # lower-triangular 3 x 3, non-singular
+            H = ctx.reals(tag + "H", (size, size), (0.5, 2.0)).copy()
+            for i in range(size):
+                for j in range(i + 1, size):
+                    H[i, j] = 0.0
+            ctx.assume(_det3(H) != 0, "non-singular Hessian")
+            return H
+        H = np.zeros((size, size))
+        d = ctx.reals(tag + "h", size, (0.5, 2.0))
+        for i in range(size):
+            if not (kind == "singular" and i == zero_at):
+                ctx.assume(d[i] != 0)
+                H[i, i] = d[i]
+        return H
+    Hs = [mk(kinds[0], "first_"), mk(kinds[1], "second_")]
+    mus = [ctx.reals("mu_first", n, (-1.0, 1.0)), ctx.reals("mu_second", n, (-1.0, 1.0))]
+    cs = _CS(els, dof, ncons)
+    cs.phase_record.num_statevars = 3
+    cs.state = 0                                   # which state the (one) object currently holds
+    fresh = _CS(els, dof, ncons); fresh.phase_record.num_statevars = 3; fresh.state = 1
+    old_h, old_np = FEH.hessian, FEH.__dict__["np"]
+    FEH.hessian = lambda mu, c: Hs[c.state]
+    if ctx.mode != "concrete":
+        FEH.__dict__["np"] = _NpWithPinv(old_np)
+
+    def call(fn, c, mu):
+        if fn == "partial":
+            return FEH.partialddx(mu, c)
+        if fn == "total":
+            return FEH.totalddx(mu, c, ref)
+        return FEH.dMudX(mu, c, ref)
+    try:
+        call(seq[0], cs, mus[0])                   # first state point
+        cs.state = 1                               # the solver moved the same object on to the next state point
+        r = call(seq[1], cs, mus[1])
+        rf = call(seq[1], fresh, mus[1])           # a new object holding the second state
+    finally:
+        FEH.hessian = old_h; FEH.__dict__["np"] = old_np
+    ctx.observe("second", r)
+    H = Hs[1]
+    ctx.prove("second evaluation on the re-used object equals an evaluation on a fresh object holding the second state",
+              np.shape(r) == np.shape(rf) and ctx.all([ctx.eq(r[i], rf[i], atol=1e-12) for i in np.ndindex(*np.shape(r))]))
+    if seq[1] in ("partial", "total"):
+        b, cols = _rhs(seq[1], els, ref, size, i0)
+        if kinds[1] == "singular":
+            ctx.prove("second evaluation on the re-used object: singular second Hessian gives the documented zeros",
+                      ctx.all([ctx.eq(r[i, j], 0.0, atol=0.0) for i in range(size) for j in range(cols)]))
+        else:
+            for i in range(size):
+                for j in range(cols):
+                    ctx.prove("second evaluation on the re-used object solves the bordered system of the SECOND Hessian",
+                              ctx.eq(sum(H[i, k] * r[k, j] for k in range(size)), b[i][j], atol=1e-9))
+
+
 # ----------------------------------------------------------------------------------------------------------------------
 # two thermodynamics objects built from one Database object (ordered precipitate -> DIS_<matrix> phase)
 
@@ -256,6 +339,17 @@ EXTRA = [
             bounds={"components": "2-4", "reference position": "first / middle / last"},
             params={"quick": [{"els": ["AL", "CR", "NI"], "ref": r} for r in ("AL", "CR", "NI")] + [{"els": ["AL", "NI"], "ref": "NI", "dof": 2}, {"els": ["AL", "CR", "FE", "NI"], "ref": "FE", "dof": 4}],
                     "thorough": [{"els": ["AL", "CR", "FE", "NI"], "ref": r, "dof": 5, "ncons": 2} for r in ("AL", "CR", "FE", "NI")]}),
+    Harness("C10.solve_reuse", solve_reuse, functions=[FEH.partialddx, FEH.totalddx, FEH.dMudX], opts={"inv_hook": _solve_hook},
+            assumptions=["exact arithmetic; Hessian families: diagonal 6 x 6 (non-singular or with one structural zero) and non-singular lower-triangular 3 x 3",
+                         "the two states have unrelated Hessians and chemical potentials (composition and temperature both changed)"],
+            stubs=["FreeEnergyHessian.hessian: symbolic matrix depending on the state the composition-set object currently holds",
+                   "np.linalg.inv: exact inverse, LinAlgError iff singular", "composition set: one object whose content is replaced between the calls"],
+            bounds={"components": 2, "evaluations on the same object": 2},
+            params={"quick": [{"seq": ["partial", "partial"], "kinds": ["diag", "diag"]}, {"seq": ["total", "total"], "kinds": ["general", "general"], "ref": "AL"},
+                              {"seq": ["partial", "total"], "kinds": ["diag", "diag"]}, {"seq": ["total", "dMudX"], "kinds": ["diag", "diag"], "ref": "AL"},
+                              {"seq": ["partial", "partial"], "kinds": ["diag", "singular"]}, {"seq": ["total", "partial"], "kinds": ["singular", "diag"]}],
+                    "thorough": [{"seq": [a, b], "kinds": [k1, k2], "ref": r} for a in ("partial", "total", "dMudX") for b in ("partial", "total", "dMudX")
+                                 for k1, k2 in (("diag", "diag"), ("diag", "singular"), ("singular", "diag"), ("general", "general")) for r in ("AL", "NI")]}),
     Harness("C10.shared_database", shared_database, functions=[__import__("kawin.thermo.Thermodynamics", fromlist=["x"]).GeneralThermodynamics._forceDisorder],
             assumptions=["parameter values are arbitrary positive reals (positive only so that a doubled sum differs from the single one)"],
             stubs=["pycalphad Database: phases dict (name, model_hints), _parameters table with insert(), search(query) evaluating the real tinydb query on the entries"],
